@@ -21,9 +21,11 @@ EXPLANATION = (
     'laws over all keys are value-level and not decided.')
 FLOORS = {'C10.a': 1, 'C10.b': 2, 'C10.c': 1, 'C10.d': 1, 'C10.e': 1, 'C10.f': 1, 'C10.g': 2, 'C10.h': 2}
 FILES = ['pyglove/core/utils/value_location.py', 'pyglove/core/utils/hierarchical.py',
-         'pyglove/core/symbolic/base.py']
+         'pyglove/core/symbolic/base.py', 'pyglove/core/symbolic/list.py', 'pyglove/core/symbolic/dict.py']
 VL = 'pyglove.core.utils.value_location.'
 HI = 'pyglove.core.utils.hierarchical.'
+S_LIST = 'pyglove.core.symbolic.list.List'
+S_DICT = 'pyglove.core.symbolic.dict.Dict'
 
 
 def rule_a(ctx):
@@ -72,6 +74,21 @@ def rule_a(ctx):
          ps.loc, 'path_str changed shape')
 
 
+def _branch_kind(f, loop):
+  """Container kind of the innermost `if isinstance(<x>, K)` branch that holds the loop."""
+  best = None
+  for n in ast.walk(f.node):
+    if isinstance(n, ast.If) and any(loop is y for b in n.body for y in ast.walk(b)):
+      for c in ast.walk(n.test):
+        if isinstance(c, ast.Call) and A.call_name(c) == 'isinstance' and len(c.args) == 2:
+          t = A.unparse(c.args[1])
+          k = 'dict' if t == 'dict' else 'list' if t in ('list', '(list, tuple)') else \
+              'object' if 'Object' in t or 'Symbolic' in t else None
+          if k:
+            best = k     # ast.walk is outer-first: the last hit is the innermost
+  return best
+
+
 def _check_traverse(ctx, f, kinds):
   """Each container branch: recursive call gets KeyPath(<loop key>, root_path)
   for the value bound by the same loop, and the container as parent."""
@@ -80,15 +97,16 @@ def _check_traverse(ctx, f, kinds):
   path_params = {}
   for lp in [n for n in ast.walk(f.node) if isinstance(n, ast.For)]:
     it = A.unparse(lp.iter)
-    kind = None
-    if '.items()' in it and 'sym' not in it:
-      kind = 'dict'
-    elif '.keys()' in it:
-      kind = 'dict'
-    elif it.startswith('enumerate('):
-      kind = 'list'
-    elif 'sym_items()' in it:
-      kind = 'object'
+    kind = _branch_kind(f, lp)
+    if kind is None:
+      if '.items()' in it and 'sym' not in it:
+        kind = 'dict'
+      elif '.keys()' in it:
+        kind = 'dict'
+      elif it.startswith('enumerate('):
+        kind = 'list'
+      elif 'sym_items()' in it:
+        kind = 'object'
     if kind is None:
       continue
     tv = A.assigned_names(lp.target)
@@ -134,6 +152,34 @@ def rule_b(ctx):
   ctx.ob('C10.b', f.fq, not problems,
          'symbolic traverse visits each child at KeyPath(key, root_path) with its container as parent '
          '(dict, list and Object branches)', f.loc, '; '.join(problems))
+  # the children reported are the ones the reported path addresses: KeyPath.query reads a
+  # symbolic container with sym_getattr (the stored value, e.g. a pg.Ref), so the traversal
+  # must not enumerate a pg.List through its __iter__ (which yields the inferred values)
+  li = idx.lookup_method(S_LIST, '__iter__')
+  iter_infers = li is not None and idx.enclosing_class(li).fq == S_LIST and A.has_call(
+      li.node, lambda d: d.split('.')[-1] in ('sym_inferred', '_infer_if_applicable'))
+  di = idx.lookup_method(S_DICT, 'items')
+  items_infers = di is not None and A.has_call(di.node, lambda d: d.split('.')[-1] in ('sym_inferred', '_infer_if_applicable'))
+  x = A.param_names(f.node)[0]
+  for lp in [n for n in ast.walk(f.node) if isinstance(n, ast.For)]:
+    if not any(A.call_name(c) == f.node.name for c in A.calls_in(lp)):
+      continue
+    kind = _branch_kind(f, lp)
+    it = lp.iter
+    txt = A.unparse(it)
+    if kind == 'list':
+      bare = isinstance(it, ast.Call) and A.call_name(it) == 'enumerate' and A.unparse(it.args[0]) == x
+      ok = not (bare and iter_infers)
+      ctx.ob('C10.b', f.fq + '#list-children', ok,
+             'the list branch enumerates the stored children of a pg.List (what the reported path looks up), '
+             'not the inferred ones', f'{f.module.relpath}:{lp.lineno}',
+             f'`{txt}` iterates a pg.List through __iter__, which resolves pg.Ref / inferential values: the node '
+             f'reported at [i] is not what KeyPath([i]).query(root) returns, and paths below it do not exist')
+    elif kind == 'dict':
+      ok = not (txt == f'{x}.items()' and items_infers)
+      ctx.ob('C10.b', f.fq + '#dict-children', ok,
+             'the dict branch enumerates the stored children of a pg.Dict', f'{f.module.relpath}:{lp.lineno}',
+             f'`{txt}` yields inferred values for a pg.Dict')
   f = idx.func(HI + 'traverse')
   problems = _check_traverse(ctx, f, ('dict', 'list'))
   ctx.ob('C10.b', f.fq, not problems,
@@ -501,8 +547,206 @@ def _inside_raise(fn, node):
   return False
 
 
+def _marker(c):
+  """The membership marker of the trie: the constant K of the `root[K] = True` stores."""
+  ks = set()
+  for m in c.methods.values():
+    for n in ast.walk(m.node):
+      if isinstance(n, ast.Assign) and isinstance(n.targets[0], ast.Subscript) \
+          and isinstance(n.value, ast.Constant) and n.value.value is True:
+        ks.add(A.unparse(n.targets[0].slice))
+  return ks
+
+
+def rule_i(ctx):
+  """KeyPathSet is a set of paths stored in a trie: a node is a member (marker
+  present) or an inner node.  Three shape conditions each law of "behaves as a
+  mathematical set" needs, whatever the paths are:
+  (1) the marker is not a possible key: keys are str/int (the quantifier of the
+      property), so a str marker makes the path ['$'] indistinguishable from
+      "the parent is a member";
+  (2) what `add(path, include_intermediate=True)` marks depends on the path
+      only, not on which nodes happened to exist: the marking of a prefix is
+      not control-dependent on the `key not in node` test that creates a node;
+  (3) `rebase` wraps a non-empty trie only: wrapping the empty trie creates
+      inner nodes with no member below (bool(s) True, list(s) == [], s !=
+      KeyPathSet())."""
+  idx = ctx.index
+  c = idx.cls(VL + 'KeyPathSet')
+  ms = _marker(c)
+  if not ms:
+    raise AnalysisError('KeyPathSet: marker stores not found')
+  str_markers = sorted(m for m in ms if m.startswith(("'", '"')))
+  ctx.ob('C10.i', 'KeyPathSet#marker', not str_markers,
+         'the membership marker of the trie is outside the key domain (str/int keys)', c.methods['add'].loc,
+         f'the marker {str_markers} is a str, i.e. a possible key: KeyPathSet([KeyPath([{str_markers[0] if str_markers else ""}])]) '
+         f'iterates as the parent path and reports the parent as a member')
+  f = c.methods['add']
+  flag = 'include_intermediate'
+  bad = []
+  n_marks = 0
+  def walk(stmts, creating):
+    nonlocal n_marks
+    for st in stmts:
+      if isinstance(st, ast.If):
+        reads_flag = flag in A.names_read(st.test)
+        creates = any(isinstance(op, ast.NotIn) for cmp in ast.walk(st.test) if isinstance(cmp, ast.Compare) for op in cmp.ops) \
+            and any(isinstance(x, ast.Assign) and isinstance(x.targets[0], ast.Subscript) and isinstance(x.value, ast.Dict)
+                    for b in st.body for x in ast.walk(b))
+        if reads_flag:
+          marks = [x for b in st.body for x in ast.walk(b) if isinstance(x, ast.Assign)
+                   and isinstance(x.targets[0], ast.Subscript) and A.unparse(x.targets[0].slice) in ms]
+          n_marks += len(marks)
+          if marks and creating:
+            bad.append(st.lineno)
+        walk(st.body, creating or creates)
+        walk(st.orelse, creating)
+      elif isinstance(st, (ast.For, ast.While, ast.With, ast.Try)):
+        for fld in ('body', 'orelse', 'finalbody'):
+          walk(getattr(st, fld, []) or [], creating)
+  walk(f.node.body, False)
+  if n_marks < 1:
+    raise AnalysisError('KeyPathSet.add: marking of intermediates not found')
+  ctx.ob('C10.i', 'KeyPathSet.add#intermediates', not bad,
+         'add(path, include_intermediate=True) marks every prefix, whether or not its node existed',
+         f.loc, f'the marking at line {bad} happens only inside the branch that creates a missing node: '
+         f'KeyPathSet([\'a.b\']).add(\'a.b.c\', include_intermediate=True) leaves \'a\' out while the same call on an '
+         f'empty set adds it')
+  f = c.methods['rebase']
+  g = C.cfg_of(f.node)
+  wraps = [n for n in g.nodes if n.ast is not None and isinstance(n.ast, ast.Assign) and isinstance(n.ast.value, ast.Dict)
+           and len(n.ast.value.keys) == 1 and isinstance(n.ast.value.values[0], ast.Name)]
+  if not wraps:
+    raise AnalysisError('KeyPathSet.rebase: wrapping step not found')
+  tests = [n for n in g.nodes if n.kind == 'test' and '_trie' in A.unparse(n.ast)]
+  ok = False
+  for t in tests:
+    # one outcome of the emptiness test never reaches the wrapping
+    for lab in ('true', 'false'):
+      blocked = {(t.id, m.id, l) for m, l in t.succ if l != lab}
+      seen, _ = g.reach(t, blocked_edges=blocked, follow_exc=False)
+      if not any(w.id in seen for w in wraps):
+        ok = True
+  ctx.ob('C10.i', 'KeyPathSet.rebase#empty', ok,
+         'rebase wraps a non-empty trie only (an empty set stays empty)', f.loc,
+         'no emptiness test: s = KeyPathSet(); s.rebase(\'a.b\') gives bool(s) True, list(s) == [], s != KeyPathSet()')
+
+
+def rule_j(ctx):
+  """The per-key comparison behind KeyPath ordering separates the keys that
+  KeyPath equality separates: the branch that orders an int key against a str
+  key must compare something that tells 0 from '0' - `str(key)` alone maps both
+  to the same text, so a <= b and b <= a hold for two different paths."""
+  idx = ctx.index
+  f = idx.find_func(VL + 'KeyPath._KeyComparisonWrapper._compare')
+  if f is None:
+    raise AnalysisError('KeyPath._KeyComparisonWrapper._compare vanished')
+  cmpname = f.node.args.args[2].arg
+  bad = []
+  n = 0
+  for c in A.calls_in(f.node):
+    if A.call_name(c) == cmpname and len(c.args) == 2:
+      n += 1
+      if all(isinstance(a, ast.Call) and A.call_name(a) == 'str' for a in c.args):
+        bad.append(c.lineno)
+  if n < 2:
+    raise AnalysisError('KeyPath._KeyComparisonWrapper._compare: comparison calls not found')
+  ctx.ob('C10.j', 'KeyPath._KeyComparisonWrapper._compare#mixed', not bad,
+         'the mixed int/str branch compares a projection that is injective on keys', f.loc,
+         f'line {bad}: only str(key) is compared, so the index 0 and the key \'0\' tie: KeyPath([0]) <= KeyPath([\'0\']) '
+         f'and >= both hold although the paths differ')
+
+
+def rule_j2(ctx):
+  """One order for both operand kinds: KeyPath._compare orders against a str by the keys
+  the str denotes, not by the printed text (text order puts 'a[10]' before 'a[2]' while
+  the key order - used against a KeyPath - puts it after)."""
+  idx = ctx.index
+  f = idx.find_func(VL + 'KeyPath._compare')
+  if f is None:
+    raise AnalysisError('KeyPath._compare vanished')
+  cmpname = f.node.args.args[2].arg
+  calls = [c for c in A.calls_in(f.node) if A.call_name(c) == cmpname]
+  if not calls:
+    raise AnalysisError('KeyPath._compare: comparison call not found')
+  textual = [c for c in calls if any(A.unparse(a) in ('self.path', 'str(self)', 'self._path_str') for a in c.args)]
+  ctx.ob('C10.j', 'KeyPath._compare#str-operand', not textual,
+         'a str operand is ordered as the path it denotes (key by key), like a KeyPath operand', f.loc,
+         f'`{A.unparse(textual[0]) if textual else ""}` orders by printed text: KeyPath.parse(\'a[2]\') < \'a[10]\' is False '
+         f'while KeyPath.parse(\'a[2]\') < KeyPath.parse(\'a[10]\') is True')
+
+
+def rule_k(ctx, rule='C10.k'):
+  """Path arithmetic in the symbolic Dict follows the key sequence: `path + s`
+  PARSES a str (`'x.y'` becomes two keys), so the path of a child whose key is a
+  variable is built with KeyPath(key, parent) - as the children's own paths are -
+  never with `+`.  (List indices are ints and functor argument names are
+  identifiers; they are not parsed, so only Dict is in scope.)"""
+  idx = ctx.index
+  c = idx.cls(S_DICT)
+  n = 0
+  for name, f in sorted(c.methods.items()):
+    for b in ast.walk(f.node):
+      if isinstance(b, ast.BinOp) and isinstance(b.op, ast.Add) and \
+          A.dotted(b.left) in ('self.sym_path', 'self._sym_path', 'self.sym_path()'):
+        n += 1
+        key_is_literal_path = isinstance(b.right, ast.Constant)
+        ctx.ob(rule, f'{f.qualname}#path-plus-key', key_is_literal_path,
+               'the path of a child key is KeyPath(key, self.sym_path), not `self.sym_path + key`', f'{f.module.relpath}:{b.lineno}',
+               f'`{A.unparse(b)}`: KeyPath.__add__ parses a str operand, so the key \'x.y\' is reported as the path x.y '
+               f'(the node of ANOTHER child) in the field update')
+  built = sum(1 for f in c.methods.values() for x in A.calls_in(f.node)
+              if (A.call_name(x) or '').endswith('KeyPath') and len(x.args) == 2 and A.dotted(x.args[1]) in ('self.sym_path',))
+  ctx.ob(rule, 'Dict#child-paths', n > 0 or built >= 2,
+         f'child paths in pg.Dict: {built} built with KeyPath(key, self.sym_path), {n} with `+`', c.methods['__init__'].loc,
+         'no child path construction found in pg.Dict')
+
+
+def rule_l(ctx):
+  """A recursive call forwards the options of the call it serves.  The nested-value
+  functions of utils/hierarchical.py recurse into members; an
+  optional parameter (a behaviour flag such as flatten_complex_keys) that is read by
+  the function and not handed to the recursive call silently falls back to its default
+  for the members - the tuple branch of `flatten` did."""
+  idx = ctx.index
+  n = 0
+  # (symbolic/base.py is out: `clone(v, deep, memo)` rightly keeps `override`, whose paths are relative
+  # to the root, for the root call - not every optional parameter is an option of the members)
+  for rel in ('pyglove/core/utils/hierarchical.py',):
+    m = idx.by_relpath[rel]
+    for f in sorted(m.funcs.values(), key=lambda x: x.fq):
+      if '.' in f.qualname:        # module-level functions only (methods recurse on members' own methods)
+        continue
+      a = f.node.args
+      pos = [x.arg for x in a.args]
+      defaults = pos[len(pos) - len(a.defaults):] + [k.arg for k, d in zip(a.kwonlyargs, a.kw_defaults) if d is not None]
+      if not defaults:
+        continue
+      own = [x for x in A.walk_local(f.node) if isinstance(x, ast.Call) and A.call_name(x) == f.node.name]
+      if not own:
+        continue
+      read = {x.id for x in ast.walk(f.node) if isinstance(x, ast.Name) and isinstance(x.ctx, ast.Load)}
+      for c in own:
+        n += 1
+        if any(isinstance(x, ast.Starred) for x in c.args) or any(k.arg is None for k in c.keywords):
+          continue
+        given = set(pos[:len(c.args)]) | {k.arg for k in c.keywords}
+        missing = [p for p in defaults if p in read and p not in given]
+        ctx.ob('C10.l', f'{f.qualname}#recursive-call-options', not missing,
+               'a recursive call passes on every optional parameter the function reads', f'{rel}:{c.lineno}',
+               f'`{A.unparse(c, 80)}` does not forward {missing}: members are processed with the default instead of the '
+               f'caller\'s choice')
+  if n < 3:
+    raise AnalysisError(f'C10.l: only {n} recursive calls found')
+
+
 def run(ctx):
   ctx.consult(*FILES)
+  rule_i(ctx)
+  rule_j(ctx)
+  rule_j2(ctx)
+  rule_k(ctx)
+  rule_l(ctx)
   rule_a(ctx)
   rule_b(ctx)
   rule_c(ctx)
